@@ -578,6 +578,72 @@ func c12EmptyBlocks(b *core.B) {
 	}
 }
 
+// c12LiteralsAreFresh: an argument written as a literal is evaluated at every call: a helper
+// that changes the map or slice it was given does not change what the next call receives.
+func c12LiteralsAreFresh(b *core.B) {
+	for _, t := range []string{
+		`<%= for (i) in [1, 2, 3] { %><%= eat({a: 1, b: "x"}) %>;<% } %>`,
+		`<%= for (i) in [1, 2, 3] { %><%= eatOpt("s", {a: 1, b: "x"}) %>;<% } %>`,
+		`<%= for (i) in [1, 2, 3] { %><%= eatList([1, "x"]) %>;<% } %>`,
+		`<%= for (i) in [1, 2, 3] { %><%= eat({a: 1, b: {c: 2}}) %>;<% } %>`,
+		`<% let f = fn() { return eat({a: 1, b: "x"}) } %><%= f() %>;<%= f() %>;<%= f() %>;`,
+	} {
+		if !b.Begin("literal arguments: " + t) {
+			continue
+		}
+		b.NonTrivialStr("literal-arguments", t)
+		b.Count("calls-with-literal-arguments-repeated")
+		tm, err := plush.NewTemplate(t)
+		if err != nil {
+			b.Violate("literal-argument-rejected", err.Error())
+			continue
+		}
+		var outs []string
+		pan := core.Guard(func() {
+			for i := 0; i < 2; i++ {
+				ctx := plush.NewContext()
+				show := func(m map[string]interface{}) string {
+					ks := []string{}
+					for k, v := range m {
+						ks = append(ks, fmt.Sprintf("%s=%v", k, v))
+					}
+					sort.Strings(ks)
+					return strings.Join(ks, ",")
+				}
+				ctx.Set("eat", func(m map[string]interface{}) string {
+					got := show(m)
+					delete(m, "a")
+					m["left"] = "over"
+					return got
+				})
+				ctx.Set("eatOpt", func(s string, m map[string]interface{}) string {
+					got := show(m)
+					delete(m, "b")
+					m["left"] = "over"
+					return got
+				})
+				ctx.Set("eatList", func(l []interface{}) string {
+					got := fmt.Sprint(l)
+					l[0] = "eaten"
+					return got
+				})
+				s, err := tm.Exec(ctx)
+				outs = append(outs, fmt.Sprintf("%q %v", s, err))
+			}
+		})
+		if pan != nil {
+			b.Violate(pan.Sig(), pan.Value)
+			continue
+		}
+		first := outs[0]
+		parts := strings.Split(strings.Trim(strings.TrimSuffix(first, " <nil>"), `"`), ";")
+		ok := strings.HasSuffix(first, " <nil>") && len(parts) == 4 && parts[0] == parts[1] && parts[1] == parts[2] && outs[1] == first
+		if !ok {
+			b.Violate("argument-changed|literal-shared-between-calls", fmt.Sprintf("every call must receive what is written down; first execution %s, second %s", outs[0], outs[1]))
+		}
+	}
+}
+
 func c12KeptContexts(b *core.B) {
 	type kept struct {
 		name     string
@@ -734,6 +800,7 @@ func c12Run(b *core.B) {
 		c12KeptContexts(b)
 		c12ForeignContext(b)
 		c12EmptyBlocks(b)
+		c12LiteralsAreFresh(b)
 	}
 	// random: 3 fixed parameters and 4-argument calls
 	r := b.Rng(2)
